@@ -575,6 +575,8 @@ func (vc *VC) evalIndex(st *State, x *ast.IndexExpr, commaOk bool) []Term {
 		v := "(select (select " + val.S + " " + base.S + ") " + k.S + ")"
 		// reading a missing key yields the zero value; nil map read is allowed
 		res := Term{sIte(sAnd(sNot(sEq(base.S, "0")), in), v, vc.U.zero(base.Sort.Elem)), base.Sort.Elem}
+		// a value loaded from a map satisfies the invariant of its type (a slice has a non-negative length)
+		vc.typeInvariant(st, Term{v, base.Sort.Elem})
 		if commaOk {
 			return []Term{res, {sAnd(sNot(sEq(base.S, "0")), in), sortBool}}
 		}
